@@ -10,7 +10,8 @@ from . import verus, registry, overlay, kani
 from .unit import ROOT, REPO
 
 # runs against a scratch copy (VX_REPO set for mutation testing) must not overwrite the real evidence
-EVID = os.path.join(ROOT, "evidence") if os.path.realpath(REPO) == "/repo" else os.path.join(ROOT, "build", "evidence-scratch")
+EVID = os.path.join(ROOT, "evidence") if (os.path.realpath(REPO) == "/repo" and not os.environ.get("VX_SCRATCH_EVIDENCE")) \
+    else os.path.join(ROOT, "build", "evidence-scratch")
 VERSION_NOTE = "Verus 0.2026.09.13 (Z3), Kani 0.68 (CBMC 6.11)"
 
 
@@ -174,7 +175,7 @@ def run_property(pid, tier="quick", seed=0, update=False):
     need_search = bool(alarm_failed or scaffold or support_failed)
     always = spec.get("always_search", False) or tier == "thorough"
     if (need_search or always) and spec.get("search"):
-        search_result = overlay.run_search(pid, seed, tier, full=need_search)
+        search_result = overlay.run_search(spec.get("search_pid", pid), seed, tier, full=need_search)
         if search_result.get("error"):
             undecided.append("replay search: " + search_result["error"])
     found = (search_result or {}).get("failures", [])
